@@ -73,6 +73,15 @@ func c01Cases(tier string, seed int64) []string {
 	for i := 0; i < nw; i++ {
 		l = append(l, fmt.Sprintf("genesis:world:%d", i))
 	}
+	// configurations the genesis validators ACCEPT (consistent ones and whatever perturbation slips through) must
+	// start from a conserving state: the validators are the only thing between a genesis file and the ledger
+	np := 3
+	if tier == "thorough" {
+		np = 120
+	}
+	for i := 0; i < np; i++ {
+		l = append(l, fmt.Sprintf("genesis:perturbed:%d", i))
+	}
 	// the call generator of C09 (every method of every embedded contract, all spork regimes, hostile encodings,
 	// contract-to-contract calls of bridge and liquidity) under this check's ledger monitor
 	nc, nm := 1, 2
@@ -421,6 +430,10 @@ func c01Run(c *fw.C, caseID string) {
 		c01RunCalls(c, caseID)
 		return
 	}
+	if strings.HasPrefix(caseID, "genesis:perturbed:") {
+		c01RunPerturbed(c, caseID)
+		return
+	}
 	r := c.Rand(caseID)
 	base := c.ScratchDir("c01")
 	defer os.RemoveAll(base)
@@ -558,3 +571,121 @@ func c02min(a, b int) int {
 }
 
 var _ = sort.Strings
+
+// c01RunPerturbed: a generated consistent configuration and every single-entry perturbation of it (C20's generator and
+// perturbation classes). C20 judges whether the validators refuse what is inconsistent; here the question is only what
+// the LEDGER looks like when they accept: booted on a real node and scanned by the conservation monitor.
+func c01RunPerturbed(c *fw.C, caseID string) {
+	r := c.Rand(caseID)
+	gcfg := c20Generate(r, r.Intn(4) != 0, false)
+	if err, p := c20Check(gcfg.Cfg); err != nil || p != nil {
+		c.Inconclusive(fmt.Sprintf("generated configuration not accepted by CheckGenesis (err=%v panic=%v)", err, p))
+		return
+	}
+	base := c.ScratchDir("c01p")
+	defer os.RemoveAll(base)
+	boot := func(label string, cfg *genesis.GenesisConfig) {
+		gen, _, p := c20Build(c20Clone(cfg))
+		if p != nil || gen == nil {
+			c.Count("accepted_configurations_that_cannot_be_built", 1)
+			return
+		}
+		dir, _ := os.MkdirTemp(base, "n")
+		var n *simnet.Node
+		func() {
+			defer func() {
+				if rec := recover(); rec != nil {
+					c.Count("accepted_configurations_a_node_cannot_start_on", 1)
+					n = nil
+				}
+			}()
+			n = simnet.Open("G", dir, gen, nil)
+		}()
+		if n == nil {
+			return
+		}
+		defer n.Destroy()
+		mon := &c01Monitor{c: c, n: n, seenBlocks: map[types.Hash]bool{}}
+		mon.check("genesis-state-of-a-configuration-the-validators-accept ("+label+")", nil)
+		c.Count("accepted_configurations_booted_and_scanned", 1)
+	}
+	boot("generated", gcfg.Cfg)
+	// supply-specific edits: a declared token nobody holds (mintable or not, with or without supply), declared supplies
+	// moved by one unit, a maximum below the supply
+	for _, pt := range c01SupplyPerturbations() {
+		pr := c.Rand(caseID + "/" + pt.class)
+		pc := c20Clone(gcfg.Cfg)
+		if _, ok := pt.apply(pc, pr); !ok {
+			continue
+		}
+		c.Eval(1)
+		if err, p := c20Check(c20Clone(pc)); err != nil || p != nil {
+			c.Count("perturbed_configurations_refused_by_the_validators", 1)
+			continue
+		}
+		c.SetAdd("perturbation_classes_accepted_by_the_validators", pt.class)
+		boot(pt.class, pc)
+	}
+	for _, pt := range c20Perturbations() {
+		pr := c.Rand(caseID + "/" + pt.class)
+		pc := c20Clone(gcfg.Cfg)
+		if _, ok := pt.apply(pc, pr); !ok {
+			continue
+		}
+		c.Eval(1)
+		if err, p := c20Check(c20Clone(pc)); err != nil || p != nil {
+			c.Count("perturbed_configurations_refused_by_the_validators", 1)
+			continue
+		}
+		c.SetAdd("perturbation_classes_accepted_by_the_validators", pt.class)
+		boot(pt.class, pc)
+	}
+}
+
+func c01SupplyPerturbations() []c20Pert {
+	unheld := func(mintable bool, supply int64) func(g *genesis.GenesisConfig, r *rand.Rand) (string, bool) {
+		return func(g *genesis.GenesisConfig, r *rand.Rand) (string, bool) {
+			if g.TokenConfig == nil {
+				return "", false
+			}
+			owner := c20RandAddr(r)
+			if len(g.TokenConfig.Tokens) > 0 {
+				owner = g.TokenConfig.Tokens[0].Owner
+			}
+			g.TokenConfig.Tokens = append(g.TokenConfig.Tokens, &definition.TokenInfo{Owner: owner, TokenName: "Unheld", TokenSymbol: "UNH", TokenDomain: "unheld.example",
+				TotalSupply: big.NewInt(supply), MaxSupply: big.NewInt(supply + 1000), Decimals: 8, IsMintable: mintable, IsBurnable: true, TokenStandard: c20RandZts(r)})
+			return fmt.Sprintf("declared token nobody holds, mintable=%v supply=%d", mintable, supply), true
+		}
+	}
+	move := func(delta int64, max bool) func(g *genesis.GenesisConfig, r *rand.Rand) (string, bool) {
+		return func(g *genesis.GenesisConfig, r *rand.Rand) (string, bool) {
+			if g.TokenConfig == nil || len(g.TokenConfig.Tokens) == 0 {
+				return "", false
+			}
+			t := g.TokenConfig.Tokens[r.Intn(len(g.TokenConfig.Tokens))]
+			if max {
+				if t.TotalSupply.Sign() == 0 {
+					return "", false
+				}
+				t.MaxSupply = new(big.Int).Sub(t.TotalSupply, big.NewInt(1))
+				return "max supply one below the total supply", true
+			}
+			if delta < 0 && t.TotalSupply.Sign() == 0 {
+				return "", false
+			}
+			t.TotalSupply = new(big.Int).Add(t.TotalSupply, big.NewInt(delta))
+			if t.MaxSupply.Cmp(t.TotalSupply) < 0 {
+				t.MaxSupply = new(big.Int).Set(t.TotalSupply)
+			}
+			return fmt.Sprintf("declared total supply moved by %d", delta), true
+		}
+	}
+	return []c20Pert{
+		{"unheld-mintable-token-with-supply", unheld(true, 1000)},
+		{"unheld-mintable-token-with-one-unit", unheld(true, 1)},
+		{"unheld-fixed-token-with-supply", unheld(false, 1000)},
+		{"declared-supply-plus-one", move(1, false)},
+		{"declared-supply-minus-one", move(-1, false)},
+		{"max-supply-below-total", move(0, true)},
+	}
+}
